@@ -19,7 +19,7 @@
 //        and A0 = 7168*sqrt(10)/41067: the scale at which `m17-mod | m17-demod` presents a transmission to the demodulator
 //        (m17-mod: impulse train through taps = sqrt(10) * unit-energy RRC, times 7168, to int16; m17-demod: sample / 41067.0).
 //
-// Output (stdout): "M <n>" first sample index of each main tx segment; "F <n> <type> <hex> <cost>" for every frame callback;
+// Output (stdout): "M <n>" first sample index of each main tx segment; "F <n> <type> <hex> <cost> <idev> <offset>" for every frame callback;
 // "L <n> <0|1>" when locked() changes; "Q <n> <state>" when demodState changes; "E <n>" at the end; with trace also "I"/"S"/"D" lines.
 #include "M17Demodulator.h"
 #include "common.h"
@@ -107,7 +107,9 @@ struct Runner {
             char buf[64];
             snprintf(buf, sizeof buf, "F %ld %s ", n, type_name(b.type));
             emit(buf); emit(bytes.c_str());
-            snprintf(buf, sizeof buf, " %d\n", cost);
+            // the deviation/offset estimates in force for this frame (public member `dev`): lets the oracle tell a mis-converged
+            // estimator from a control-logic or decoding failure
+            snprintf(buf, sizeof buf, " %d %.6g %.6g\n", cost, double(d->dev.idev()), double(d->dev.offset()));
             emit(buf);
             return true;
         });
